@@ -873,7 +873,10 @@ func genLineWalks(o *out, r *rng, n int) {
 		// argument: points of a (vertices, midpoints, quarter points) in walk order, sometimes leaving it
 		var cand []ipt
 		for j := 0; j+1 < len(a); j++ {
-			cand = append(cand, a[j], ipt{(a[j].x + a[j+1].x) / 2, (a[j].y + a[j+1].y) / 2})
+			// vertices, quarter points and midpoints in walk order: consecutive candidates include pairs
+			// strictly inside one segment (nested collinear segments)
+			cand = append(cand, a[j], ipt{a[j].x + (a[j+1].x-a[j].x)/4, a[j].y + (a[j+1].y-a[j].y)/4},
+				ipt{(a[j].x + a[j+1].x) / 2, (a[j].y + a[j+1].y) / 2}, ipt{a[j].x + 3*(a[j+1].x-a[j].x)/4, a[j].y + 3*(a[j+1].y-a[j].y)/4})
 		}
 		cand = append(cand, a[len(a)-1])
 		start := r.intn(len(cand))
